@@ -380,11 +380,32 @@ pub fn exec(case: &Case) -> Outcome {
                 }
             }
             // cold, then warm (same node, same query)
-            for pass in 0..2 {
+            // ... and once more as a streaming query: its historical phase answers the same statement
+            for pass in 0..3 {
                 use futures::FutureExt;
-                let got = match std::panic::AssertUnwindSafe(node.query(&sql)).catch_unwind().await {
-                    Ok(r) => r,
-                    Err(_) => Err(cardinalsin::Error::Internal(format!("PANIC {}", take_last_panic().unwrap_or_default()))),
+                let streamed = async {
+                    let chan = cardinalsin::ingester::BroadcastChannel::new(4);
+                    let ex = cardinalsin::query::StreamingQueryExecutor::new(node.engine.clone(), env.metadata.clone(), chan.subscribe());
+                    let mut rx = ex.execute(&sql).await?;
+                    drop(chan);
+                    let mut bs = Vec::new();
+                    while let Some(b) = rx.recv().await {
+                        bs.push(b?);
+                    }
+                    Ok(bs)
+                };
+                let got = if pass == 2 {
+                    out.class("also-as-streaming-query");
+                    match std::panic::AssertUnwindSafe(streamed).catch_unwind().await {
+                        Ok(r) => r,
+                        Err(_) => Err(cardinalsin::Error::Internal(format!("PANIC {}", take_last_panic().unwrap_or_default()))),
+                    }
+                } else {
+                    drop(streamed);
+                    match std::panic::AssertUnwindSafe(node.query(&sql)).catch_unwind().await {
+                        Ok(r) => r,
+                        Err(_) => Err(cardinalsin::Error::Internal(format!("PANIC {}", take_last_panic().unwrap_or_default()))),
+                    }
                 };
                 let sigbase = |what: &str| -> String {
                     let mut tags: Vec<&str> = Vec::new();
@@ -420,7 +441,7 @@ pub fn exec(case: &Case) -> Outcome {
                             let what = if gr.len() < wr.len() || missing > 0 { "rows-missing" } else { "rows-surplus" };
                             out.set_fail(
                                 sigbase(what),
-                                format!("query {} ({} pass): {}\n expected {} rows, got {} rows; e.g. expected {:?} got {:?}", qi, if pass == 0 { "cold" } else { "warm" }, sql, wr.len(), gr.len(), wr.first(), gr.first()),
+                                format!("query {} ({} pass): {}\n expected {} rows, got {} rows; e.g. expected {:?} got {:?}", qi, ["cold", "warm", "streaming"][pass], sql, wr.len(), gr.len(), wr.first(), gr.first()),
                             );
                             return out;
                         }
